@@ -351,7 +351,9 @@ func (il *inliner) findCall(st ast.Stmt, info *types.Info, helpers map[*types.Fu
 			}
 		}
 		roots = []ast.Node{s.Cond}
-	case *ast.IncDecStmt, *ast.SendStmt:
+	case *ast.SendStmt:
+		roots = []ast.Node{s.Chan, s.Value}
+	case *ast.IncDecStmt:
 		return nil, nil
 	default:
 		return nil, nil
